@@ -174,7 +174,7 @@ def get_image_quadrants(IM, reorient=True, symmetry_axis=None,
         return Q0, Q1, Q2, Q3
 
     elif symmetrize_method == "average":
-        if symmetry_axis==(0, 1):
+        if 0 in symmetry_axis and 1 in symmetry_axis:
             Q = (Q0 + Q1 + Q2 + Q3)/np.sum(use_quadrants)
             return Q, Q, Q, Q
 
